@@ -112,7 +112,7 @@ def main():
         def obj_setup(p, idx, tag):
             return '%s *%s_%s = new %s(%d);' % (p['cls'], tag, p['name'], p['cls'], 20 + idx)
 
-        def gen_call(wname, scoped, owner, m, nargs, kind='method'):
+        def gen_call(wname, scoped, owner, m, nargs, kind='method', dyn=None):
             """C++ block that calls wrapper wname and the direct C++ for values j = 0..2"""
             nonlocal ncalls
             out = []
@@ -121,7 +121,7 @@ def main():
             for j in range(nvals):
                 L = ['{']
                 if owner and not m.get('static'):
-                    L.append('  %s *A = new %s(7); %s *B = new %s(7);' % (owner, owner, owner, owner))
+                    L.append('  %s *A = new %s(7); %s *B = new %s(7);' % (owner, dyn or owner, owner, dyn or owner))
                 for i, q in enumerate(ps):
                     if q['kind'].startswith('obj'):
                         L.append('  ' + obj_setup(q, i, 'WA'))
@@ -243,6 +243,11 @@ def main():
                         unmapped.append('%s(%s)' % (f['scoped_name'], ', '.join(dbt)))
                         continue
                     tests += gen_call(w['name'], f['scoped_name'], cls, cands[0], len(rest))
+                    if cands[0].get('virtual'):
+                        # the wrapper of a virtual method called on objects of derived classes that override it: the override must run
+                        for dc in lib.classes:
+                            if any(q.get('overrides') == cls and q['name'] == simple for q in dc['methods']) and not any(x['virtual'] for x in dc['bases']):
+                                tests += gen_call(w['name'], f['scoped_name'] + ' on a ' + dc['name'], cls, cands[0], len(rest), dyn=dc['name'])
                 elif cls is None:
                     cands = [g for g in lib.funcs if ((g['ns'] + '::') if g['ns'] else '') + g['name'] == f['scoped_name'] and len(g['params']) >= len(rest)
                              and [q['db'] for q in g['params'][:len(rest)]] == dbt and all(q['default'] for q in g['params'][len(rest):])]
